@@ -2,8 +2,8 @@
 import io
 from vfam import *  # noqa
 
-THEOREMS = ["C01_constructor", "C01_fill_contents", "C01_fill_length", "C01_any_representation", "C01_get_depth", "C01_decode_route", "C01_decode_any", "C01_any_repr_root"]
-PARTIAL = ["proved for the constructor route, the decode route (C01_decode_route / C01_decode_any), and every representation of a value (C01_any_repr_root; mutations preserve representation: C04); the object-import route and mutations not yet covered by C04 (pop, packed, bits, union change) are tied by the correspondence (root_from_obj, root_default_mutated)"]
+THEOREMS = ["C01_constructor", "C01_fill_contents", "C01_fill_length", "C01_any_representation", "C01_get_depth", "C01_decode_route", "C01_decode_any", "C01_any_repr_root", "C01_import_route", "C01_default_route", "C01_mutation_route"]
+PARTIAL = ["the model theorems cover every route the property lists: constructor (C01_constructor), decoding (C01_decode_route / C01_decode_any), object import (C01_import_route), default (C01_default_route), mutation (C01_mutation_route, with C05_cmd_on_chain for enclosing views); what is not a theorem is that the Python classes compute what the model computes (correspondence: five routes per value) and type expressions outside wf_ty (limits >= 2^64, empty containers)"]
 COQ_IMPORTS = ["RM.Types", "RMR.RunV"]
 COQ_FN = "RunV.run_c01"
 COQ_CASE_TY = "(ty * val)"
